@@ -1271,7 +1271,7 @@ pub fn run(ctx: &Ctx) {
     }
     let (fast, cc) = engine_configs();
     ctx.note("wave_engines", json!(fast.iter().chain(cc.iter()).map(config_label).collect::<Vec<_>>()));
-    let n = std::env::var("C36_WAVE_CASES").ok().and_then(|s| s.parse::<usize>().ok()).unwrap_or(ctx.scale(240, 12_000));
+    let n = std::env::var("C36_WAVE_CASES").ok().and_then(|s| s.parse::<usize>().ok()).unwrap_or(ctx.scale(200, 12_000));
     ctx.run_payloads("wave-recorded", |p| {
         std::thread::scope(|s| {
             std::thread::Builder::new()
